@@ -13,7 +13,7 @@ variables of the packages this property's code lives in, the functions (other th
 assign to them or call methods on them, and the fields of the property's struct types. The model is
 a pure function of the arguments and of these fields; a new variable, writer or field is state the
 model does not know of. -/
-def stateC18 : List (String × String) := [("globals:graph", ""), ("globals:graphalg", ""), ("globals:graphout", ""), ("globalwrites:graph", ""), ("globalwrites:graphalg", ""), ("globalwrites:graphout", ""), ("fields:graphalg.NodeMarks", "marks:[]uint32"), ("fields:graphalg.SCCGraph", "subnodes:[]int subnodeIndexes:[]int subnodeComponent:[]int out:[]int outIndexes:[]int"), ("fields:graphalg.Euler", "Enter:func(nint) Exit:func(nint)"), ("fields:graphalg.simplified", "indexes:[]int edges:[]int weights:[]float64"), ("fields:graph.bigraph", "(embedded):Graph preds:[][]int"), ("fields:graph.listSubgraph", "underlying:Graph nodes:[]listSubgraphNode"), ("fields:graph.listSubgraphNode", "out:[]int oldNode:int oldEdges:[]int"), ("fields:graphout.Dot", "Name:string Label:func(nodeint)string NodeAttrs:func(nodeint)[]DotAttr EdgeAttrs:func(node,edgeint)[]DotAttr"), ("fields:graphout.DotAttr", "Name:string Val:interface{}")]
+def stateC18 : List (String × String) := [("globals:graph", ""), ("globals:graphalg", ""), ("globals:graphout", ""), ("globalwrites:graph", ""), ("globalwrites:graphalg", ""), ("globalwrites:graphout", ""), ("fields:graphalg.NodeMarks", "marks:[]uint32"), ("fields:graphalg.SCCGraph", "subnodes:[]int subnodeIndexes:[]int subnodeComponent:[]int out:[]int outIndexes:[]int"), ("fields:graphalg.Euler", "Enter:func(nint) Exit:func(nint)"), ("fields:graphalg.simplified", "indexes:[]int edges:[]int weights:[]float64"), ("fields:graph.bigraph", "(embedded):Graph preds:[][]int"), ("fields:graph.listSubgraph", "underlying:Graph nodes:[]listSubgraphNode"), ("fields:graph.listSubgraphNode", "out:[]int oldNode:int oldEdges:[]int"), ("fields:graphout.Dot", "Name:string Label:func(nodeint)string NodeAttrs:func(nodeint)[]DotAttr EdgeAttrs:func(node,edgeint)[]DotAttr"), ("fields:graphout.DotAttr", "Name:string Val:interface{}"), ("funcs:graph", "n=13 fnv64a=91fcf3f7fdaf1da6"), ("funcs:graphalg", "n=27 fnv64a=e894f2184af9a92e"), ("funcs:graphout", "n=6 fnv64a=ef4b5ce9d193d85e")]
 
 /-- the source has exactly the package-level variables, writers and struct fields the model accounts for -/
 theorem state_C18 : holdsAll stateC18 = true := by decide +kernel
